@@ -45,7 +45,7 @@ type logical struct {
 }
 
 var goodCrons = []string{"* * * * *", "*/5 * * * *", "0 0 * * 1", "15 3 1 1 *"}
-var badCrons = []string{"", "x", "* * *", "61 * * * *"}
+var badCrons = []string{"", "x", "* * *", "61 * * * *", "TZ=UTC", "CRON_TZ=UTC", "@every"}
 
 func genLogical(r *rng) []logical {
 	req := func() string { // a field the HTTP binding calls `required`
